@@ -5,6 +5,7 @@ import (
 	"encoding/binary"
 	"encoding/hex"
 	"fmt"
+	"os"
 	"strings"
 
 	"cedarverif/harness/internal/orc"
@@ -1110,7 +1111,7 @@ func tamperRun(c *Ctx, sp tamperSpec, fs []fault, count bool, api string) tamper
 
 func runGcmFormat(c *Ctx) error {
 	drawnIVs = nil
-	c.Res.Rule = "all base IVs drawn by SetSymmetricKey during the run pairwise distinct, also in their last 12 bytes, every byte position varying; every (key, 16-byte nonce) pair of the run used once across endpoints, directions and sessions; send histories: cleartext prelude of every shape (none, one way, both ways, empty frames), SetSymmetricKey on both ends, interleaved sends in both directions (sizes incl. 0), secrets sent with encryption toggled off, counters started near 2^32 through NewStreamWithCryptoState and driven to the limit through every sending API (SendMessage, SendPartialMessage, WriteMessage flush, EndMessage, PutSecret with encryption on/off, typed Message FlushFrame/FinishMessage), the refusal checked on the bytes really written to the connection; every emitted frame is opened by the independent refcodec (nonce = base IV + counter in the leading word, IV on first frame only, AAD = [digests] header) and refcodec-built frames are fed to the real receiver; distinct by op-sequence hash; non-trivial = ≥1 sealed frame"
+	c.Res.Rule = "all base IVs drawn by SetSymmetricKey during the run pairwise distinct, also in their last 12 bytes, every byte position varying; every (key, 16-byte nonce) pair of the run used once across endpoints, directions and sessions; send histories: cleartext prelude of every shape (none, one way, both ways, empty frames), SetSymmetricKey on both ends, interleaved sends in both directions (sizes incl. 0), secrets sent with encryption toggled off, counters started near 2^32 through NewStreamWithCryptoState and driven to the limit through every sending API (SendMessage, SendPartialMessage, WriteMessage flush, EndMessage, PutSecret with encryption on/off, typed Message FlushFrame/FinishMessage), the refusal checked on the bytes really written to the connection; socket write failures injected into the connection (timeout error / other error / short write, after every k bytes of the frame, on the first IV-bearing frame and on later ones, keyed and imported sessions incl. nonce word / counter near 2^32, through every sending API) with the application sending on afterwards through every API: every later frame opens by refcodec at the next counter value, never under a value a sealed-but-lost frame consumed, the IV is never announced again; every emitted frame is opened by the independent refcodec (nonce = base IV + counter in the leading word, IV on first frame only, AAD = [digests] header) and refcodec-built frames are fed to the real receiver; distinct by op-sequence hash; non-trivial = ≥1 sealed frame"
 	var cases []Case
 	n := c.Pick(500, 8000)
 	for i := 0; i < n; i++ {
@@ -1121,6 +1122,10 @@ func runGcmFormat(c *Ctx) error {
 	}
 	for i := 0; i < c.Pick(150, 2000); i++ {
 		cases = append(cases, gcmRefSender(c, i))
+	}
+	// a socket write that FAILS mid-frame (deadline, short write) and a sender that keeps sending
+	for i := 0; i < c.Pick(260, 2500); i++ {
+		cases = append(cases, gcmWriteFail(c, i))
 	}
 	checkDrawnIVs(c)
 	return diffBatch(c, "stream", cases, nil)
@@ -1445,6 +1450,210 @@ func gcmNearWrap(c *Ctx, idx int) Case {
 		c.Sample(map[string]any{"ops": abbreviate(w.ops), "real": abbreviate(w.real)})
 	}
 	return Case{Label: fmt.Sprintf("gcm-nearwrap#%d", idx), Ops: w.ops, Real: w.real}
+}
+
+// refOpenAt: does the protected frame f open, by the documented format, as the frame with counter ctr
+// of a direction with base IV `base` (first: with the two handshake digests in the associated data)?
+func refOpenAt(key []byte, digSelf, digPeer [32]byte, base [16]byte, ctr uint32, first bool, f refcodec.Frame) bool {
+	d, err := refcodec.NewDir(key, digSelf, digPeer)
+	if err != nil {
+		return false
+	}
+	d.BaseIV, d.HaveIV, d.Counter, d.First = base, true, ctr, first
+	_, err = d.Open(f)
+	return err == nil
+}
+
+// gcmWriteFail: the write of one protected frame fails on the socket — after k bytes of the frame, for
+// every k; with a timeout error, another error, or a short write without error; the connection stays
+// open — and the application goes on sending on the same stream through every sending API. Judged with
+// the reference codec on the bytes that reached the connection (C12: "no key/nonce pair is used twice
+// in a direction ... the base IV transmitted with the first frame only"): the frame whose write failed
+// was SEALED, under (key, base IV + n), and any part of it may be in an observer's hands; so
+//   - every later frame opens as frame n+1, n+2, ... of the direction (one counter value per sealed frame),
+//   - none of them opens under a counter value an earlier sealed frame — the lost one included — used,
+//   - none of them announces the base IV again.
+//
+// The model is told the history up to the failing call (it has no notion of a failing connection).
+func gcmWriteFail(c *Ctx, idx int) Case {
+	w := newWorld()
+	imported := c.Rng.Intn(3) == 0
+	if imported {
+		var iv, ivB [16]byte
+		copy(iv[:], randBytes(c, 16))
+		copy(ivB[:], randBytes(c, 16))
+		start := uint32(1 + c.Rng.Intn(5))
+		switch c.Rng.Intn(4) {
+		case 0:
+			binary.BigEndian.PutUint32(iv[:4], 0xffffffff-uint32(c.Rng.Intn(4))) // the nonce word wraps around the lost frame
+		case 1:
+			start = 0xffffffff - uint32(1+c.Rng.Intn(4)) // the lost frame takes one of the last counter values
+		}
+		fa := &blobFields{flags: 1 | 4 | 8, key: keyBytes(5), eiv: iv, div: ivB, ectr: start, dctr: 1, fs: make([]byte, 32), fr: make([]byte, 32)}
+		fb := &blobFields{flags: 1 | 4 | 8, key: keyBytes(5), eiv: ivB, div: iv, ectr: 1, dctr: start, fs: make([]byte, 32), fr: make([]byte, 32)}
+		_ = w.importBlob("A", buildBlob(fa))
+		_ = w.importBlob("B", buildBlob(fb))
+	} else {
+		if c.Rng.Intn(2) == 0 {
+			prelude(c, w, 3)
+		}
+		w.key("A", 5)
+		w.key("B", 5)
+	}
+	a := w.ep("A")
+	// frames before the failure (none: the lost frame is the direction's first, the one carrying the IV)
+	pre := c.Rng.Intn(4)
+	if idx%3 == 0 && !imported {
+		pre = 0
+	}
+	for i := 0; i < pre && !w.dead; i++ {
+		api := wrapAPIs[c.Rng.Intn(len(wrapAPIs))]
+		before := len(a.c.AllOut)
+		if w.emitVia(c, "A", api) != nil {
+			break
+		}
+		fr, _ := refcodec.ParseFrames(a.c.AllOut[before:])
+		for range fr {
+			if api == "secret-off" {
+				w.crypto("B", false)
+				_, _ = w.getsecret("B")
+				w.crypto("B", true)
+			} else {
+				_, _, _ = w.recvf("B")
+			}
+		}
+	}
+	w.finish()
+	modelOps, modelReal := append([]string{}, w.ops...), append([]string{}, w.real...)
+	if w.dead || a.dir == nil {
+		c.Distinct(strings.Join(w.ops, "\n"), false)
+		return Case{Label: fmt.Sprintf("gcm-writefail#%d (setup only)", idx), Ops: modelOps, Real: modelReal}
+	}
+	// the failing write: k bytes of the frame get out
+	failAPI := wrapAPIs[idx%len(wrapAPIs)]
+	keep := (idx / len(wrapAPIs)) % 56 // every k over header, IV, ciphertext and tag of a short frame
+	var ferr error
+	how := "timeout"
+	switch c.Rng.Intn(4) {
+	case 0:
+		how, ferr = "io-error", fmt.Errorf("write: connection timed out")
+	case 1:
+		how, ferr = "short-write", nil
+		if keep > 20 || failAPI == "wflush" {
+			keep = -(1 + c.Rng.Intn(20)) // counted from the end of the frame
+		}
+	default:
+		ferr = os.ErrDeadlineExceeded
+	}
+	if failAPI == "wflush" && keep >= 0 && c.Rng.Intn(2) == 0 {
+		keep = 21 + c.Rng.Intn(4100) // a long frame: anywhere in its ciphertext
+	}
+	d := a.dir
+	lostCtr, lostFirst, hadIV := d.Counter, d.First, d.HaveIV
+	a.c.FailNext, a.c.FailKeep, a.c.FailErr, a.c.FailedWrote = true, keep, ferr, nil
+	failsBefore := a.c.Failed
+	w.log(fmt.Sprintf("# the next write on A's connection lets %d bytes through and fails (%s)", keep, how), "ok")
+	err := w.emitVia(c, "A", failAPI)
+	a.c.FailNext = false
+	cut := a.c.Failed > failsBefore
+	c.Count("writefail:api:" + failAPI)
+	c.Count("writefail:how:" + how)
+	if !cut {
+		// no frame was handed to the connection (refused at the counter limit): nothing was lost
+		c.Count("writefail:no-write-happened")
+	} else {
+		if err == nil {
+			c.Count("writefail:call-returned-nil")
+		}
+		got := a.c.FailedWrote
+		// the lost frame consumed counter value lostCtr, whatever part of it is on the wire
+		ivKnown := hadIV
+		if !hadIV && len(got) >= 21 {
+			copy(d.BaseIV[:], got[5:21])
+			d.HaveIV, ivKnown = true, true
+		}
+		d.Counter, d.First = lostCtr+1, false
+		switch {
+		case len(got) < 5:
+			c.Count("writefail:cut-in:header")
+		case !hadIV && len(got) < 21:
+			c.Count("writefail:cut-in:iv")
+		default:
+			c.Count("writefail:cut-in:ciphertext")
+		}
+		if !ivKnown {
+			a.dir = nil // nobody can open what follows; judged below by search
+		}
+		key := a.key
+		violated := false
+		// the application keeps sending, through every API
+		for i := 0; i < 2+c.Rng.Intn(4) && !violated; i++ {
+			api := wrapAPIs[c.Rng.Intn(len(wrapAPIs))]
+			if i == 0 && c.Rng.Intn(2) == 0 {
+				api = failAPI // the same call again: a retry
+			}
+			before := len(a.c.AllOut)
+			expect := d.Counter
+			_ = w.emitVia(c, "A", api)
+			frames, _ := refcodec.ParseFrames(a.c.AllOut[before:])
+			for _, f := range frames {
+				if violated {
+					break
+				}
+				report := func(k, what, obs string) {
+					violated = true
+					c.Violate(Violation{Property: "C12", Key: "C12:" + k + ":" + api, What: what, Ops: append([]string{}, w.ops...),
+						Expected: fmt.Sprintf("the frame after a sealed-but-lost frame (counter %d) opens as frame %d of the direction, without IV", lostCtr, expect), Observed: obs})
+				}
+				if ivKnown {
+					// under a counter value some earlier sealed frame used?  (the lost one, or one before it)
+					lo := uint32(0)
+					if lostCtr > 3 {
+						lo = lostCtr - 3
+					}
+					for ctr := lo; ctr <= lostCtr && !violated; ctr++ {
+						for _, first := range []bool{false, true} {
+							if refOpenAt(key, d.DigSelf, d.DigPeer, d.BaseIV, ctr, first, f) {
+								report("nonce-reused-after-failed-write", "after a write failure the stream sealed a frame under a (key, nonce) pair that an earlier frame — sealed, and partly on the wire — already used",
+									fmt.Sprintf("frame opens under base IV + %d", ctr))
+							}
+							if len(f.Body) >= 32 && bytes.Equal(f.Body[:16], d.BaseIV[:]) {
+								g := refcodec.Frame{Flag: f.Flag, Len: f.Len, Body: f.Body[16:]}
+								if refOpenAt(key, d.DigSelf, d.DigPeer, d.BaseIV, ctr, first, g) {
+									report("nonce-reused-after-failed-write", "after a write failure the stream announced its base IV again and sealed a frame under a (key, nonce) pair that an earlier frame — sealed, and partly on the wire — already used",
+										fmt.Sprintf("frame carries the base IV and opens under base IV + %d", ctr))
+								}
+							}
+						}
+					}
+					if !violated && lostFirst == false && len(f.Body) >= 32 && bytes.Equal(f.Body[:16], d.BaseIV[:]) {
+						report("iv-reannounced-after-failed-write", "the base IV was transmitted again with a later frame", "frame starts with the base IV")
+					}
+				} else if len(f.Body) >= 32 {
+					// the IV never got out completely. A later frame that announces an IV and opens under it at
+					// a counter value already consumed is the lost frame's (key, nonce) again
+					var x [16]byte
+					copy(x[:], f.Body[:16])
+					g := refcodec.Frame{Flag: f.Flag, Len: f.Len, Body: f.Body[16:]}
+					for ctr := uint32(0); ctr <= lostCtr && !violated; ctr++ {
+						for _, first := range []bool{false, true} {
+							if refOpenAt(key, d.DigSelf, d.DigPeer, x, ctr, first, g) {
+								report("nonce-reused-after-failed-write", "the first frame of the direction was sealed and its write failed; a later frame announces the base IV (again) and is sealed under a counter value already consumed",
+									fmt.Sprintf("frame announces IV %x and opens under it + %d", x, ctr))
+							}
+						}
+					}
+				}
+			}
+		}
+	}
+	checkOpenable(c, w)
+	c.Distinct(strings.Join(w.ops, "\n"), cut)
+	c.Count("kind:writefail")
+	if idx == 0 {
+		c.Sample(map[string]any{"ops": abbreviate(w.ops), "real": abbreviate(w.real)})
+	}
+	return Case{Label: fmt.Sprintf("gcm-writefail#%d", idx), Ops: modelOps, Real: modelReal}
 }
 
 // gcmRefSender: the sender is the reference codec, the receiver the real stream (impl_accepts_ref).
